@@ -439,6 +439,11 @@ func (c *c06Case) Run(ctx *core.Ctx) {
 		expectText("em", want, "includer-variable-shadowed-by-component")
 		expectText("i", []string{"IV"}, "after")
 		trig = c.Var + "/" + c.Form
+	case "rootstruct":
+		// the includer's variables are the fields of a struct (by JSON tag, by Go name, also of a
+		// field that its tag hides): slot content reads them as the page does outside the include tag
+		c.runRootStruct(ctx)
+		return
 	case "case": // slot names written with capital letters (attribute keys are lower-cased by the HTML parser)
 		comp := `<div class="c"><header><slot name="pageTitle">FBH</slot></header><footer><slot name="Foot">FBF</slot></footer></div>`
 		var content, wh, wf string
@@ -552,12 +557,66 @@ func (c *c06Case) Run(ctx *core.Ctx) {
 	}
 }
 
+type c06Root struct {
+	Title  string `json:"title"`
+	Author string `json:"-"`
+	Plain  string
+	N      int `json:"count"`
+}
+
+func (c *c06Case) runRootStruct(ctx *core.Ctx) {
+	ctx.NonTrivial()
+	marks := `[{{ title }}|{{ Title }}|{{ Author }}|{{ Plain }}|{{ count }}|{{ N }}]`
+	if c.Form == "expr" {
+		marks = `[{{ title + '!' }}|{{ Plain + '!' }}|{{ count + 1 }}]`
+	}
+	files := Files{
+		"card.vuego": `<div class="card"><h2><slot name="head">no head</slot></h2><em><slot>empty</slot></em><ul><li v-for="r in two"><slot name="row" :r="r">no row</slot></li></ul></div>`,
+		"page.vuego": `<p>` + marks + `</p><template include="card.vuego" :two="[1, 2]"><template #head>` + marks + `</template><b>` + marks + `</b><template #row="sp">` + marks + `</template></template>`,
+	}
+	var data any = c06Root{Title: "Hello", Author: "Ann", Plain: "P", N: 3}
+	if c.Var == "ptr" {
+		data = &c06Root{Title: "Hello", Author: "Ann", Plain: "P", N: 3}
+	}
+	ctx.Eval(1)
+	var buf strings.Builder
+	if err := vuego.NewVue(files.FS()).Render(&buf, "page.vuego", data); err != nil {
+		ctx.Violation("render-error", c.Part, c.Var+"/"+c.Form, fmt.Sprintf("%v\n%s", err, files))
+		return
+	}
+	out := buf.String()
+	ctx.Outcome(out)
+	nodes := htmlcmp.Parse(out)
+	text := func(tag string) []string {
+		var got []string
+		for _, n := range htmlcmp.Find(nodes, func(n *html.Node) bool { return n.Data == tag }) {
+			got = append(got, strings.TrimSpace(htmlcmp.Text(n)))
+		}
+		return got
+	}
+	page := text("p")
+	if len(page) != 1 || strings.Contains(page[0], "||") {
+		ctx.Violation("slot-content", "rootstruct/page-level", c.Var+"/"+c.Form, fmt.Sprintf("the page itself shows %q\n%s", page, files))
+		return
+	}
+	for tag, n := range map[string]int{"h2": 1, "em": 1, "li": 2} {
+		got := text(tag)
+		want := make([]string, n)
+		for i := range want {
+			want[i] = page[0]
+		}
+		if strings.Join(got, "¦") != strings.Join(want, "¦") {
+			ctx.Violation("slot-content", "rootstruct/"+tag, c.Var+"/"+c.Form, fmt.Sprintf("slot content shows %q, the page outside the include tag shows %q\n%s out %q", got, page[0], files, clip(out, 400)))
+		}
+	}
+}
+
 func init() {
 	core.Register(&core.Check{
 		ID:        "C06",
 		Level:     "exploration",
 		CPUBudget: 10,
-		Rule: "component with header/default/footer slots (fallback on two of them) used by includers supplying every subset in every form (v-slot:, #, plain children, v-slot, v-slot:default) x 4 content kinds (static, {{ }} of an includer variable, :attr, text) x 6 instance arrangements (incl. an include tag carrying v-if / v-else); scoped slots (4 components incl. slot in v-for) x {named var, destructured, fallback, plain}; same slot used twice; nested components (5 arrangements); layout-inherited slots (also with props the layout's slot binds, declared by name or destructured, and never rendered a second time in the page content); slot names written with capital letters; components whose prop / front-matter key / loop variable / template variable has the name of the includer's variable that the content reads; " +
+		Rule: "component with header/default/footer slots (fallback on two of them) used by includers supplying every subset in every form (v-slot:, #, plain children, v-slot, v-slot:default) x 4 content kinds (static, {{ }} of an includer variable, :attr, text) x 6 instance arrangements (incl. an include tag carrying v-if / v-else); scoped slots (4 components incl. slot in v-for) x {named var, destructured, fallback, plain}; same slot used twice; nested components (5 arrangements); layout-inherited slots (also with props the layout's slot binds, declared by name or destructured, and never rendered a second time in the page content); slot names written with capital letters; components whose prop / front-matter key / loop variable / template variable has the name of the includer's variable that the content reads; includer variables that are fields of struct root data (by JSON tag, by Go name, hidden by the tag) read by named, default and per-row scoped slot content as outside the include tag; " +
 			"every case also right after a render (on another engine) that passes content for all those slot names to a component and through a layout to the components the layout includes; " +
 			"wide part: components with 1..13 named slots of which the includer fills the even / odd / all ones; whitespace part: content whose parts are separated by a space, a newline or a non-breaking space, content that is a non-breaking space only, padded and blank content, supplied plain / in a v-slot template / for a named slot to a slot inside <pre>, with exact text; " +
 			"oracle: expected normalised text (and bound attributes) at every slot position. non-trivial = all",
@@ -628,6 +687,11 @@ func init() {
 			emit(&c06Case{Part: "layout", Var: "for-component-short", Kind: "dyn"})
 			for _, f := range []string{"hash", "vslot", "lower", "none", "nonascii", "scopedpad"} {
 				emit(&c06Case{Part: "case", Form: f})
+			}
+			for _, v := range []string{"struct", "ptr"} {
+				for _, f := range []string{"must", "expr"} {
+					emit(&c06Case{Part: "rootstruct", Var: v, Form: f})
+				}
 			}
 			for _, v := range []string{"prop", "boundprop", "frontmatter", "loopvar", "tmplvar"} {
 				for _, f := range []string{"plain", "vslot", "attr", "scoped", "scopednamed"} {
